@@ -516,7 +516,8 @@ def inferAnn (m : Member) : Member :=
 /-- `is_exception`: a name of `cls.mro(True, False)` is in `_STD_LIB_EXCEPTIONS`.  The linearisation
 holds every reachable base exactly once (C05), so membership is reachability. -/
 def isException (c : Ctx) (bases : List Base) : Bool :=
-  (extNames c.env (c.env.length + 1) bases).any (fun n => c.pdExc.contains n)
+  -- `if base.startswith('builtins.'): base = base[len('builtins.'):]` (since 78b09d3), then `base in _STD_LIB_EXCEPTIONS`
+  (extNames c.env (c.env.length + 1) bases).any (fun n => c.pdExc.contains (stripBuiltins n))
 
 def postProcess (c : Ctx) (m : Member) : Member :=
   if m.cls = .cls && isException c m.bases then { m with kind := .exception } else m
@@ -709,7 +710,7 @@ decorators defined in the package whose name does not end in `property`/`Propert
 expressions; no `@x.setter` / `@x.deleter` / `@overload`; no bare annotation; `else`/`finally` parts bind nothing; an
 `if` guarded by a comparison of `__name__`/`'__main__'`/`None` is skipped by pydoctor exactly when it is not taken on import; a class attribute assigned a NON-literal does not
 shadow an inherited method or nested class (a literal may, since 91105ce); the external base names reachable from a class are classified
-alike by `_STD_LIB_EXCEPTIONS` (which sees the name as written, e.g. `builtins.ValueError`) and by `builtins`. -/
+alike by `_STD_LIB_EXCEPTIONS` and by `builtins` (both after removing a `builtins.` prefix). -/
 namespace Subset
 open Ir
 
@@ -748,7 +749,7 @@ def inert : Stmt → Bool
   | _ => false
 
 def basesOk (c : Ctx) (bases : List Base) : Bool :=
-  (extNames c.env (c.env.length + 1) bases).all (fun n => c.pdExc.contains n == c.pyExc.contains (stripBuiltins n))
+  (extNames c.env (c.env.length + 1) bases).all (fun n => c.pdExc.contains (stripBuiltins n) == c.pyExc.contains (stripBuiltins n))
 
 structure Seen where
   names : List Name := []       -- names bound so far, in order of first binding
